@@ -2,7 +2,7 @@
    property theorems only.  Model: Conn/Persister.v + Conn/SourceAck.v (every action list = every
    schedule and every fault).  Acceptor and monitors over the observed event log: Conn/Trace.v. *)
 From Coq Require Import Sorted.
-From Verif Require Import Conn.Crash Conn.TraceProofs Conn.ModelProofs Conn.Theorems.
+From Verif Require Import Conn.Crash Conn.TraceProofs Conn.ModelProofs Conn.Theorems Conn.FlushCtx.
 
 (* --- what decides the property on a log of the real code --- *)
 Theorem C02_accepted_log_satisfies_monitor : forall c l,
@@ -108,6 +108,41 @@ Theorem C02_engine_in_order_spec : forall c s l,
 Proof. exact engine_in_order_spec. Qed.
 Print Assumptions C02_engine_in_order_spec.
 
+(* --- forced flushes (Persister.Flush(ctx), Source.Teardown(ctx)) with a live, done or expiring context --- *)
+(* the model's run does not depend on the contexts the forced flushes / teardowns are called with *)
+Theorem C02_forced_flush_ctx_irrelevant : forall m acts,
+  run_log m (map erase_ctx acts) = run_log m acts.
+Proof. exact run_log_ctx_irrelevant. Qed.
+Print Assumptions C02_forced_flush_ctx_irrelevant.
+
+(* two transactions never overlap, whatever context a flush is forced with: between two ETxBegin lies
+   the end (commit or failed NewTransaction) of the first *)
+Theorem C02_flushes_serialized : forall m, 1 <= retries (m_cfg m) ->
+  forall acts l1 l2 l3,
+  run_log m acts = l1 ++ ETxBegin :: l2 ++ ETxBegin :: l3 -> existsb tx_end l2 = true.
+Proof. exact flushes_serialized. Qed.
+Print Assumptions C02_flushes_serialized.
+
+(* the snapshots of one source reach the store in the order they were taken (every commit attempt) *)
+Theorem C02_commits_in_snapshot_order : forall m, 1 <= retries (m_cfg m) ->
+  forall acts l1 ws ok snap l2 ws' ok' snap' l3 w w',
+  run_log m acts = l1 ++ ECommit ws ok snap :: l2 ++ ECommit ws' ok' snap' :: l3 ->
+  In w ws -> In w' ws' -> w_s w = w_s w' -> w_tag w < w_tag w'.
+Proof. exact commits_in_snapshot_order. Qed.
+Print Assumptions C02_commits_in_snapshot_order.
+
+(* the same two facts are what the acceptor enforces on a log of the real code *)
+Theorem C02_accepted_log_serialized : forall c l1 l2 l3,
+  accepts c (l1 ++ ETxBegin :: l2 ++ ETxBegin :: l3) = true -> existsb tx_end l2 = true.
+Proof. exact accepted_flushes_serialized. Qed.
+Print Assumptions C02_accepted_log_serialized.
+
+Theorem C02_accepted_log_commits_in_snapshot_order : forall c l1 ws ok snap l2 ws' ok' snap' l3 w w',
+  accepts c (l1 ++ ECommit ws ok snap :: l2 ++ ECommit ws' ok' snap' :: l3) = true ->
+  In w ws -> In w' ws' -> w_s w = w_s w' -> w_tag w < w_tag w'.
+Proof. exact accepted_commits_in_snapshot_order. Qed.
+Print Assumptions C02_accepted_log_commits_in_snapshot_order.
+
 (* --- non-vacuity: two sources, a healthy teardown at the instant the stream is cancelled --- *)
 
 Example C02_nonvacuous :
@@ -135,3 +170,18 @@ Example C02_held_send_teardown_must_drain :
   accepts held_cfg (held_log false) = false /\ Mon_C02 true held_cfg (held_log false) = false /\
   accepts held_cfg (held_log true) = true /\ Mon_C02 true held_cfg (held_log true) = true.
 Proof. pose proof held_send_teardown_must_drain as H. tauto. Qed.
+
+(* forced flushes with a dead / expiring context in the model: the second write starts only after the
+   first has committed; and the log of a persister that lets them overlap on a last-commit-wins store
+   (the newer write commits first, the older overwrites it) is rejected by acceptor and monitor *)
+Example C02_forced_flush_dead_ctx_waits :
+  run_log fc_model fc_schedule =
+    [ERead 0 1; EAck 0 [1]; ETxBegin; ERead 0 2; EAck 0 [2];
+     ECommit [mkW 0 1 1 true] true [(1, 1)]; ETxBegin; ECommit [mkW 0 2 2 true] true [(2, 2)]] /\
+  Mon_C02 true fc_cfg (run_log fc_model fc_schedule) = true.
+Proof. exact forced_flush_dead_ctx_waits. Qed.
+
+Example C02_overlapping_forced_flush_rejected :
+  accepts fc_cfg fc_overlap_log = false /\ Mon_C02 true fc_cfg fc_overlap_log = false /\
+  Mon_C02 false fc_cfg fc_overlap_log = false.
+Proof. exact overlapping_forced_flush_rejected. Qed.
